@@ -368,6 +368,26 @@ class Program(object):
         return set(t[5:] if isinstance(t, str) and t.startswith("type:") else t for t in out)
 
     # ---- class helpers --------------------------------------------------------
+    def unmodelled_overrides(self):
+        """New methods (not in known_functions.json) of a package class that shadow a method of one of its package base classes,
+        and new package classes deriving from a package class: the rules address functions by class, so behaviour moved into an
+        override / subclass would not be seen.  -> list of descriptions (empty on the tree the rules were confirmed on)"""
+        from .inline import known_functions
+        known = known_functions()
+        out = []
+        for c in self.classes.values():
+            bases = [self.classes[b] for b in c.bases if b in self.classes]
+            if not bases:
+                continue
+            kn = known.get(c.module, set())
+            for m in c.methods:
+                if "%s.%s" % (c.qual, m) in kn:
+                    continue
+                for b in bases:
+                    if self.mro_lookup(b, m) is not None and not (m.startswith("__") and m.endswith("__") and m != "__init__"):
+                        out.append("%s.%s.%s overrides %s" % (c.module, c.qual, m, self.mro_lookup(b, m).fq))
+        return out
+
     def mro_lookup(self, cls, name):
         """Find method `name` in `cls` or its in-package bases (depth first)."""
         seen = set()
